@@ -17,7 +17,7 @@ RULE = ("call specs = (function, parameter variant, dtype, backend) over 42 publ
         "(b) the whole sequence is replayed in reversed order in another process under a different NUMBA_NUM_THREADS / Dask worker "
         "count; results are compared by sha256 of bytes+dtype+shape; module tables and __defaults__ of the public functions are "
         "snapshotted after every call; plus ordered pairs (A, B) of specs of one function that differ in parameters/dtype/raster size: B after A in a new process must equal B alone; non-trivial = distinct (spec, predecessor spec) pairs compared with a fresh process")
-BUDGET = {'quick': 170, 'thorough': 1500}
+BUDGET = {'quick': 170, 'thorough': 1800}
 MODES = {'quick': [('J', 8), ('I', 8)], 'thorough': [('J', 8), ('I', 8)]}
 FLOORS = {'quick': {'repeat_identical': 141, 'fresh_process_identical': 48, 'reordered_other_threads_identical': 220, 'functions_in_sequences': 1,
                     'state_tables_unchanged': 250, 'compiled_mode_sequences': 4, 'pair_second_call_equals_fresh': 36, 'edited_argument_recomputed': 100, 'joint_compute_equals_separate': 25},
@@ -258,17 +258,21 @@ def state_snapshot():
 
 
 def plan(tier, seed):
-    n = 16 if tier == 'quick' else 200
-    out = [('seq', i) for i in range(n)]
+    q = tier == 'quick'
+    seqs = [('seq', i) for i in range(16 if q else 120)]
     # ordered pairs (A, B) of specs of ONE function that differ in parameters / dtype / raster size: B after A in a new
     # process must equal B alone in a new process (stale per-function caches and frozen closures show exactly here)
-    m = 16 if tier == 'quick' else 200
-    out += [('pairs', i) for i in range(m)]
+    pairs = [('pairs', i) for i in range(16 if q else 60)]
     # call, edit the argument rasters in place, call again: the second result must be that of the edited rasters
-    out += [('edit', i) for i in range(32 if tier == 'quick' else 400)]
+    edits = [('edit', i) for i in range(32 if q else 320)]
     # two lazy Dask results computed in ONE graph must equal the results computed separately (task keys must not collide)
-    out += [('joint', i) for i in range(16 if tier == 'quick' else 200)]
-    return out
+    joints = [('joint', i) for i in range(16 if q else 160)]
+    if q:
+        return seqs + pairs + edits + joints
+    # thorough: the kinds are merged proportionally, so that a run cut short by its time budget has still driven every kind
+    # (an earlier thorough run spent its whole budget on sequences and pairs and was INCONCLUSIVE on the other two)
+    keyed = [((i + 0.5) / len(L), k, d) for k, L in enumerate((seqs, pairs, edits, joints)) for i, d in enumerate(L)]
+    return [d for _, _, d in sorted(keyed)]
 
 
 def shard_filter(descs, shard, nshards, mode):
